@@ -1135,7 +1135,9 @@ class Forall(BeginStatement):
     name = ""
 
     def process_item(self):
-        self.specs = self.item.get_line()[6:].lstrip()[1:-1].strip()
+        self.specs = self.item.apply_map(
+            self.item.get_line()[6:].lstrip()[1:-1].strip()
+        )
         return BeginStatement.process_item(self)
 
     def tostr(self):
@@ -1389,10 +1391,11 @@ class Associate(BeginStatement):
 
     match = re.compile(r"associate\s*\(.*\)\Z", re.I).match
     end_stmt_cls = EndAssociate
+    name = ""
 
     def process_item(self):
         line = self.item.get_line()[9:].lstrip()
-        self.associations = line[1:-1].strip()
+        self.associations = self.item.apply_map(line[1:-1].strip())
         return BeginStatement.process_item(self)
 
     def tostr(self):
